@@ -19,7 +19,7 @@ META = {
         "R3 (PROV): the cost offset handed to add_acquisition in the day loop is the pre-pass entry at the same transaction "
         "index that identifies the lot and reaches the lot unmodified (only unwrapped / copied / defaulted); pooling adds to pool.total_cost the cost returned for the pooled quantity. R4: the "
         "ledger's same-day consumption averages with ONE weight per lot — Σ(w × unit cost) ÷ Σ(w) with w the lot's availability — "
-        "so the cost attributed is the cost of the shares actually debited. Does not decide the sum identity over a history."),
+        "so the cost attributed is the cost of the shares actually debited. Does not decide the sum identity over a history. R6 also: the apportioning formula itself — each lot receives adjustment × held ÷ total held, with no cap or floor on a lot's share (shared with C11-R4)."),
     "trusted_base": ["rust_decimal arithmetic is exact enough that equal terms denote equal values", "rustc MIR + resolution"],
 }
 
